@@ -3,6 +3,8 @@ import algebra
 
 
 def run(v, tier, seed, replay):
+    if replay:
+        return algebra.replay(v, replay, 16)
     ops = ["projector", "identity", "generator", "posproj", "negproj"]
     algebra.explore_and_replay(v, "C13", [dict(dims=[2, 3, 4, 5, 6], ops=ops, invs=["LawFactory"])], tolf=16)
     v.cov["exhaustive"] = True
